@@ -7,6 +7,7 @@ WT=/tmp/seedmatrix-wt
 git -C /repo worktree remove --force $WT 2>/dev/null
 git -C /repo worktree add --detach $WT HEAD -q || exit 2
 export VERIF_EVIDENCE_DIR=/tmp/verif-seed-evidence
+export VERIF_SHRINK_S=2
 [ $# -gt 0 ] || set -- $(ls seeded | grep '^C')
 for name in "$@"; do
   prop=$(echo $name | cut -c1-3)
